@@ -22,7 +22,7 @@ def tiers(quick_checks, thorough_checks, quick_shards=8, thorough_shards=16, **e
 PROPS = {}
 
 
-def prop(pid, test, quick, thorough, rule, bounds, technique, level_text, level_note, design_ref, assumptions=(), race=False, inflight=False):
+def prop(pid, test, quick, thorough, rule, bounds, technique, level_text, level_note, design_ref, assumptions=(), race=False, inflight=True):
     PROPS[pid] = dict(test=test, quick=quick, thorough=thorough, rule=rule, bounds=bounds, technique=technique,
                       level_text=level_text, level_note=level_note, design_ref=design_ref,
                       assumptions=list(assumptions), race=race, inflight=inflight)
